@@ -124,6 +124,8 @@ func c20Schedule(ep *vnet.Endpoint, evs []Ev, discover bool) {
 				}
 			case "foreign":
 				ep.Inject(mk(e.IA), &net.UDPAddr{IP: net.IPv4(192, 0, 2, 55), Port: 3671})
+			case "empty":
+				ep.Inject([]byte{}, nil) // a datagram without payload is a legitimate datagram
 			case "readerr":
 				ep.InjectErr(io.ErrUnexpectedEOF)
 			}
@@ -138,9 +140,11 @@ func c20Describe(slots int) func() {
 		var ep *vnet.Endpoint
 		var evs []Ev
 		for s := 0; s < slots; s++ {
-			c := mc.Choose(12, mc.Free)
+			c := mc.Choose(13, mc.Free)
 			ia := uint16(0x1100 + s)
 			switch c {
+			case 12:
+				evs = append(evs, Ev{0, "empty", ia, s})
 			case 9: // frames of other service types in the middle of the wait
 				evs = append(evs, Ev{timeout / 2, "other", ia, s})
 			case 10:
@@ -211,9 +215,11 @@ func c20Discover(slots int, flat int) func() {
 		var ep *vnet.Endpoint
 		var evs []Ev
 		for s := 0; s < slots; s++ {
-			c := mc.Choose(10, mc.Free)
+			c := mc.Choose(11, mc.Free)
 			ia := uint16(0x1100 + s)
 			switch c {
+			case 10:
+				evs = append(evs, Ev{0, "empty", ia, s})
 			case 8:
 				evs = append(evs, Ev{timeout / 2, "other", ia, s})
 			case 9:
